@@ -477,9 +477,15 @@ static void zmInvMont(word b[], const word a[], const qr_o* r, void* stack)
 	register size_t k;
 	ASSERT(zmIsOperable(r));
 	ASSERT(zmIsIn(a, r));
-	// b <- a^{-1} 2^k \mod mod
+	// необратимый нулевой элемент?
+	if (wwIsZero(a, r->n))
+	{
+		wwSetZero(b, r->n);
+		return;
+	}
+	// b <- a^{-1} 2^k \mod mod (b <- 0, если a необратим)
 	k = zzAlmostInvMod(b, a, r->mod, r->n, stack);
-	ASSERT(wwBitSize(r->mod, r->n) <= k);
+	ASSERT(wwIsZero(b, r->n) || wwBitSize(r->mod, r->n) <= k);
 	ASSERT(k <= 2 * wwBitSize(r->mod, r->n));
 	// b <- a^{-1} R^2 \mod mod
 	for (; k < 2 * r->n * B_PER_W; ++k)
@@ -710,9 +716,15 @@ static void zmInvMont2(word b[], const word a[], const qr_o* r, void* stack)
 	ASSERT(zmIsOperable(r));
 	ASSERT(zmIsIn(a, r));
 	params = (const zm_mont_params_st*)r->params;
-	// b <- a^{-1} 2^k \mod mod
+	// необратимый нулевой элемент?
+	if (wwIsZero(a, r->n))
+	{
+		wwSetZero(b, r->n);
+		return;
+	}
+	// b <- a^{-1} 2^k \mod mod (b <- 0, если a необратим)
 	k = zzAlmostInvMod(b, a, r->mod, r->n, stack);
-	ASSERT(wwBitSize(r->mod, r->n) <= k);
+	ASSERT(wwIsZero(b, r->n) || wwBitSize(r->mod, r->n) <= k);
 	ASSERT(k <= 2 * wwBitSize(r->mod, r->n));
 	// b <- a^{-1} R^2 \mod mod
 	for (; k < 2 * params->l; ++k)
